@@ -72,6 +72,11 @@ CHECKS = {
    text="Product traces: the same seeded history (KV with TTL/deletes/failed transactions/merges in both RAM index modes; all structures in HintKeyValAndRAMIdxMode; reopens and shadow reopens) is executed under every combination of RWMode x StartFileLoadingMode x SyncEnable (x index mode): 16 resp. 8 configurations. Every event carries one digest of (operation, arguments, results) per configuration; TLC requires all digests to be equal and the first configuration's event to be a step of Nuts.tla, whose actions have no option-dependent behaviour.",
    note="Digests are computed by the driver; equality is judged by TLC. SPop is excluded from product histories because its choice is legitimately nondeterministic. Sparse mode is not yet part of the product.",
    technique="TLA+ trace validation with TLC of product traces over all storage-option combinations"),
+ "C03": dict(
+   cat="model_checking", design="DESIGN.md section 6 C03",
+   text="Specification -> code, exhaustive: TLC enumerates every status assignment absent/live/deleted/expired of a key universe with nested prefixes (a, ab, abc, b [, bc]: 256 states quick, 1024 thorough) and, for each, every PrefixScan(prefix, offset, limit) with prefix in {'', a, ab, b, c}, offset 0..n+1, limit -1..n+1 and every PrefixSearchScan(prefix, regexp, 0, limit) over 4 regular expressions (89 600 queries quick); the replayer builds each state in a fresh bucket (puts, deletes, expired PutWithTimestamp) in HintKeyValAndRAMIdxMode and HintKeyAndRAMIdxMode and runs the queries; TLC validates every recorded page against KVSpec!PageOK (live keys with the prefix, ascending, after skipping offset, at most limit) on the state rebuilt from the recorded writes. Random histories with paged scans over a 41-key universe (several B+ tree leaves, rotations, reopen) are validated the same way.",
+   note="Trusts TLC and the recording wrapper; the regular-expression predicate is computed with Go's regexp and passed as a match set. Sparse index mode is not yet covered by this check. For limit 0 the statement fixes no count and any prefix of the remaining keys is admitted.",
+   technique="TLC-enumerated (state, query) pairs replayed into the code + TLA+ trace validation of the recordings"),
  "C01": dict(
    cat="model_checking", design="DESIGN.md section 6 C01",
    text="Trace validation: seeded random KV histories (multi-bucket, TTL on both sides of expiry, segments of 128-512 bytes so nearly every transaction rotates, reopen) are executed on the real library in HintKeyValAndRAMIdxMode and HintKeyAndRAMIdxMode x FileIO and MMap, every call is recorded, and TLC accepts the trace only if every Get/GetAll/RangeScan/PrefixScan/PrefixSearchScan result equals the KVSpec ordered-map-with-TTL result on the specification state (Nuts.tla). The API-grain design is model-checked exhaustively for a small universe (NutsMC_kv.cfg).",
